@@ -244,3 +244,44 @@ def _lift(e):
     if isinstance(e, _np.bool_):
         return bool(e)
     return e
+
+
+class _Special:
+    """scipy.special facade: Gamma and Beta functions as uninterpreted functions on symbolic
+    arguments (positive on positive arguments), native otherwise."""
+    def gamma(self, a):
+        if is_sym(a):
+            return _sym._uf_apply("gamma", a)
+        import scipy.special as sp
+        v = sp.gamma(float(a))
+        return _lift(float(v)) if _exact() else v
+
+    def beta(self, a, b):
+        if is_sym(a) or is_sym(b):
+            return _sym._uf_apply("betafn", a, b)
+        import scipy.special as sp
+        v = sp.beta(float(a), float(b))
+        if _exact():
+            from fractions import Fraction as F
+            fa, fb = F(a), F(b)
+            if fa.denominator == 1 and fb.denominator == 1 and 0 < fa <= 12 and 0 < fb <= 12:
+                return F(math.factorial(int(fa) - 1) * math.factorial(int(fb) - 1), math.factorial(int(fa + fb) - 1))
+            return _lift(float(v))
+        return v
+
+    def __getattr__(self, name):
+        import scipy.special as sp
+        return getattr(sp, name)
+
+
+class ScipyShim:
+    def __init__(self):
+        self.special = _Special()
+
+    def __getattr__(self, name):
+        import importlib
+        try:
+            return importlib.import_module("scipy." + name)
+        except ImportError:
+            import scipy
+            return getattr(scipy, name)
